@@ -30,7 +30,8 @@ RULE = ('A case is an interpreted op list over {finalize; unlock_config block wi
         'bind_parameter (str/tuple key, 2 spellings, scoped); '
         'parse_config (flat, block, two statements, macro definition, %macro reference top-level '
         'or nested, unevaluated @M/gin.macro, @unknown() placeholder via skip_unknown=True '
-        'top-level or nested, %gin.REQUIRED, a constant other than gin.REQUIRED, a reference to a '
+        'top-level or nested, each of those three also as a dict key / inside a tuple dict key / as a '
+        'dict value, %gin.REQUIRED, a constant other than gin.REQUIRED, a reference to a '
         'known configurable, and a two-parameter section with one parameter left at '
         '%gin.REQUIRED and the other bound to constant/literal/reference/macro in either order); '
         'register a new configurable (configurable / '
@@ -212,8 +213,12 @@ PARSE_KINDS = ['flat', 'block', 'two', 'macrodef', 'macroref', 'macroref_nested'
 # 'pair': two statements for ONE (scope, configurable) section -- one parameter left at
 # %gin.REQUIRED, the other bound to a constant / literal / reference / macro, in either order.
 GOOD_PARSE_KINDS = ['flat', 'block', 'two', 'macrodef', 'constref', 'ref']
-BAD_PARSE_KINDS = PARSE_KINDS[4:] + ['pair', 'pair']
-ALL_PARSE_KINDS = PARSE_KINDS + ['constref', 'ref', 'pair']
+# '<base>@<place>': the offending reference of <base> placed as a dict key, inside a tuple used
+# as a dict key, or as a dict value (besides top level and list/tuple element)
+PLACED_KINDS = [b + '@' + pl for b in ('macroref', 'uneval', 'unknown')
+                for pl in ('key', 'tuplekey', 'dictvalue')]
+BAD_PARSE_KINDS = PARSE_KINDS[4:] + ['pair', 'pair'] + PLACED_KINDS
+ALL_PARSE_KINDS = PARSE_KINDS + ['constref', 'ref', 'pair'] + PLACED_KINDS
 PAIR_OTHER = ['const', 'lit', 'ref', 'macro']
 CONSTANT = 'c12k.KC'
 HOOK_KINDS = ['none', 'empty', 'bind', 'dup', 'invalid', 'raise']
@@ -433,6 +438,18 @@ class _Run:
       text, upd, skip = f'{lhs} = [{val}, @zz.nosuch]', [(key, param, ('unk',))], True
     elif kind == 'required':
       text, upd = f'{lhs} = %gin.REQUIRED', [(key, param, ('req',))]
+    elif kind in PLACED_KINDS:
+      base, place = kind.split('@')
+      if base == 'macroref':
+        ref, value = '%' + macro, ('mref', macro)
+      elif base == 'uneval':
+        ref, value = f'@{macro}/gin.macro', ('uneval', macro)
+      else:
+        ref, value, skip = ['@nosuch0()', '@zz.nosuch'][val % 2], ('unk',), True
+      rhs = {'key': f'{{{ref}: {val}}}',
+             'tuplekey': f"{{'k': 0, ({ref}, {val}): [1]}}",
+             'dictvalue': f"{{'k': {{{val}: {ref}}}}}"}[place]
+      text, upd = f'{lhs} = {rhs}', [(key, param, value)]
     elif kind in ('constref', 'ref', 'pair'):
       other_kind = {'constref': 'const', 'ref': 'ref'}.get(kind) or PAIR_OTHER[(val // 2) % 4]
       if other_kind == 'const' and not self.constants:
@@ -1006,6 +1023,17 @@ def sweep_variants(tier):
             for scoped in (0, 1, 3):
               add(macros + hook + [bad, ['finalize', scoped]] + fix +
                   [['finalize', scoped], _BIND1])
+  # (2a) the same causes with the offending reference as a dict key / inside a tuple dict key /
+  #      as a dict value
+  for kind in PLACED_KINDS:
+    for val in (0, 1):
+      bad = ['parse', kind, 1, 1, 1, 1, val]                     # s/pm.g.b = {...}
+      for macros in ([], [['parse', 'macrodef', 0, 0, 0, 0, 0]],
+                     [['parse', 'macrodef', 0, 0, 0, 0, 1]]):
+        for fix in ([], [['bind', 1, 1, 1, 0, 5]], [['clear', 0]],
+                    [['parse', 'macrodef', 0, 0, 0, 0, val]]):
+          for scoped in (0, 1):
+            add(macros + [bad, ['finalize', scoped]] + fix + [['finalize', scoped], _BIND1])
   # (2b) sections with two parameters: one left at %gin.REQUIRED, the other bound to another
   #      constant / a literal / a reference / a macro (bound), in both binding orders and both
   #      parameter-name orders, made by one parse (flat, block) or by two separate operations,
@@ -1191,7 +1219,8 @@ def _reject_scenario(draw):
     ops.append(['parse', 'macrodef', 0, 0, 0, 0, draw(_val)])
   # 1-2 rejection causes, every cause class equally likely (sampled_from keeps repetitions as
   # weights; one_of silently drops duplicate branches)
-  causes = ['macroref', 'macroref_nested', 'uneval', 'uneval_bound', 'unknown', 'unknown_nested',
+  causes = PLACED_KINDS + [
+            'macroref', 'macroref_nested', 'uneval', 'uneval_bound', 'unknown', 'unknown_nested',
             'required', 'pair', 'hidden_required', 'hidden_required', 'dup', 'dup', 'invalid',
             'invalid', 'raise', 'raise']
   for _ in range(draw(st.sampled_from([1, 1, 2]))):
